@@ -140,6 +140,114 @@ def reuse_case(rnd, wd):
     return [], {"first": first, "vec": vec, "s2": s2, "d": d}
 
 
+def start_form_case(rnd, wd, k):
+    """The energy a chain carries is the energy of the state it carries, from the first transition on, in whatever form the starting
+    model was handed over (column, flat vector, row, nested list) and for real (shape-sensitive) targets."""
+    import contextlib, io, os
+    import hmclab
+    S, D = hmclab.Samplers, hmclab.Distributions
+    d = rnd.choice([2, 3, 4])
+    mu = numpy.array([[rnd.randint(-8, 8) / 4.0] for _ in range(d)])
+    tk = ["normal", "laplace", "normal_full", "mixture"][k % 4]
+    if tk == "normal":
+        target = D.Normal(mu, numpy.array([[rnd.choice([0.5, 1.0, 2.0])] for _ in range(d)]))
+    elif tk == "laplace":
+        target = D.Laplace(mu, numpy.array([[rnd.choice([0.5, 1.0, 2.0])] for _ in range(d)]))
+    elif tk == "normal_full":
+        target = D.Normal(mu, numpy.eye(d) + 0.25 * numpy.ones((d, d)))
+    else:
+        target = D.Mixture([D.Normal(mu, numpy.ones((d, 1))), D.Normal(mu + 2.0, 0.5 * numpy.ones((d, 1)))], [0.3, 0.7])
+    start = numpy.array([[rnd.randint(-12, 12) / 4.0] for _ in range(d)])
+    form = ["column", "flat", "row", "list"][(k // 4) % 4]
+    arg = {"column": start.copy(), "flat": start[:, 0].copy(), "row": start.T.copy(), "list": [[float(v)] for v in start[:, 0]]}[form]
+    kind = rnd.choice(["rwmh", "hmc"])
+    seen = []
+    base = S.RWMH if kind == "rwmh" else S.HMC
+
+    class Snap(base):
+        def _evaluate_acceptance(self_):
+            seen.append((numpy.array(self_.current_model, dtype=float).copy(), float(self_.current_x)))
+            return super()._evaluate_acceptance()
+    kw = dict(stepsize=0.3, **({"amount_of_steps": 2} if kind == "hmc" else {}))
+    try:
+        with contextlib.redirect_stdout(io.StringIO()), numpy.errstate(all="ignore"):
+            Snap(seed=k).sample(os.path.join(wd, "form.h5"), target, proposals=3, initial_model=arg, overwrite_existing_file=True, disable_progressbar=True, **kw)
+    except Exception as e:  # noqa  (a form the sampler refuses is not the subject here)
+        numpy.seterr(all="warn")
+        return []
+    numpy.seterr(all="warn")
+    for j, (cur, x) in enumerate(seen):
+        want = float(target.misfit(cur.reshape(-1, 1).copy()))
+        if kind == "rwmh" and not (abs(x - want) <= 1e-12 * max(1.0, abs(want))):
+            return [("carried-misfit", f"{kind} on a {tk} target, starting model given as {form} {start[:, 0].tolist()}: at transition {j} the chain carries misfit {x} "
+                     f"for the state {cur.flatten().tolist()}, whose misfit is {want}")]
+    return []
+
+
+def composite_rule_case(rnd, wd, k):
+    """The Metropolis rule on composite real targets (Bayes' rule of several terms, some of them normalised so that their misfit is
+    negative; mixtures; log-space transforms): accept iff u < exp(E_current - E_proposed) with E the target's own total misfit."""
+    import contextlib, io, os
+    import hmclab
+    from .probes import ScriptedRng
+    S, D = hmclab.Samplers, hmclab.Distributions
+    d = rnd.choice([1, 2])
+    mu = numpy.array([[rnd.randint(-4, 4) / 4.0] for _ in range(d)])
+    prior = D.Normal(mu, numpy.full((d, 1), 4.0))
+    like = D.Normal(mu + 0.25, numpy.full((d, 1), rnd.choice([0.0025, 0.01, 0.04])))
+    like.normalize()                                   # -log p including its constant: negative near the mode
+    tk = ["bayes", "bayes3", "mixture"][k % 3]
+    if tk == "bayes":
+        target = D.BayesRule([prior, like])
+    elif tk == "bayes3":
+        extra = D.Laplace(mu, numpy.full((d, 1), 0.05))
+        extra.normalize()
+        target = D.BayesRule([D.Uniform(mu - 3.0, mu + 3.0), prior, like, extra])
+    else:
+        target = D.Mixture([D.Normal(mu, numpy.full((d, 1), 0.01)), D.Normal(mu + 0.5, numpy.full((d, 1), 0.02))], [0.4, 0.6])
+    kind = rnd.choice(["rwmh", "rwmh", "hmc"])
+    P = 10
+    rng = ScriptedRng(normals=[[rnd.randint(-16, 16) / 64.0 for _ in range(d)] for _ in range(P)], uniforms=[rnd.randint(1, 1023) / 1024.0 for _ in range(P)])
+    seen = []
+    base = S.RWMH if kind == "rwmh" else S.HMC
+
+    class Snap(base):
+        def _evaluate_acceptance(self_):
+            before = (numpy.array(self_.current_model, dtype=float).copy(), self_.accepted_proposals)
+            prop = numpy.array(self_.proposed_model, dtype=float).copy()
+            mom = (numpy.array(self_.current_momentum, dtype=float).copy(), numpy.array(self_.proposed_momentum, dtype=float).copy()) if kind == "hmc" else None
+            n_u = sum(1 for q in self_.rng.requests if q[:3] == ("uniform", 0.0, 1.0))
+            out = super()._evaluate_acceptance()
+            us = [float(numpy.asarray(v).flatten()[0]) for q, v in zip(self_.rng.requests, self_.rng.values) if q[:3] == ("uniform", 0.0, 1.0)][n_u:]
+            seen.append((before[0], prop, mom, us[-1] if us else None, self_.accepted_proposals > before[1]))
+            return out
+    smp = Snap(seed=1)
+    smp.rng = rng
+    kw = dict(stepsize=1.0) if kind == "rwmh" else dict(stepsize=0.05, amount_of_steps=2)
+    try:
+        with contextlib.redirect_stdout(io.StringIO()), numpy.errstate(all="ignore"):
+            smp.sample(os.path.join(wd, "comp.h5"), target, proposals=P, initial_model=mu + 0.25, overwrite_existing_file=True, disable_progressbar=True, **kw)
+    except Exception as e:  # noqa
+        numpy.seterr(all="warn")
+        return [("sampling-raised", f"{kind} on a {tk} target raised {type(e).__name__}: {str(e)[:100]}")]
+    numpy.seterr(all="warn")
+    for j, (cur, prop, mom, u, decided) in enumerate(seen):
+        if u is None:
+            return [("no-uniform-draw", f"{kind} on a {tk} target: transition {j} drew no uniform number")]
+        with numpy.errstate(all="ignore"):
+            e_cur, e_prop = float(target.misfit(cur.copy())), float(target.misfit(prop.copy()))
+            if mom is not None:
+                e_cur += 0.5 * float(numpy.sum(mom[0] ** 2))
+                e_prop += 0.5 * float(numpy.sum(mom[1] ** 2))
+            a = numpy.exp(numpy.float64(e_cur) - numpy.float64(e_prop))
+        if abs(float(a) - u) < 1e-9 * max(1.0, u):
+            continue                       # the comparison is decided by the last bits of a real target's arithmetic
+        if decided != bool(u < a):
+            return [("rule-composite", f"{kind} on a {tk} target ({d}-D): transition {j}: u = {u}, exp(E_current - E_proposed) = {float(a)} "
+                     f"(E = {e_cur}, {e_prop}): accepted = {decided}")]
+    return []
+
+
 def nontrivial(cfg, r):
     if r.exception is not None or not r.snaps:
         return False
@@ -184,6 +292,14 @@ def run(tier, seed):
             if i < 2:
                 samples.append({"case": {k: cfg[k] for k in ("kind", "d", "P", "tune", "stepsize", "us")},
                                 "decisions": [s["acc_after"] > s["acc_before"] for s in r.snaps]})
+        for k in range(16 if tier == "quick" else 128):
+            dist["start_form_cases"] = dist.get("start_form_cases", 0) + 1
+            for key, what in start_form_case(rnd, wd, k):
+                violations.append(Violation(key, what, {"start_form_case": k}))
+        for k in range(18 if tier == "quick" else 150):
+            dist["composite_rule_cases"] = dist.get("composite_rule_cases", 0) + 1
+            for key, what in composite_rule_case(rnd, wd, k):
+                violations.append(Violation(key, what, {"composite_rule_case": k}))
         reuse_n = 12 if tier == "quick" else 100
         for _ in range(reuse_n):
             probs, desc = reuse_case(rnd, wd)
